@@ -104,6 +104,24 @@ class Built:
     pass
 
 
+class HarnessIntrospection(Exception):
+    """the harness could not find something through a PRIVATE name of the library: a recorded mismatch, never a finding"""
+
+
+def branch_param(like):
+    """the parameter object holding the branch lengths / heights of the model's tree (found without relying on one private
+    attribute name: first by the usual names, then among the tree model's registered parameters)"""
+    tm = like.tree_model
+    for name in ("_branch_lengths", "_internal_heights"):
+        p = getattr(tm, name, None)
+        if p is not None and hasattr(p, "tensor"):
+            return p
+    for p in getattr(tm, "_parameters", {}).values() if isinstance(getattr(tm, "_parameters", None), dict) else []:
+        if hasattr(p, "tensor"):
+            return p
+    raise HarnessIntrospection("no branch-length parameter found on " + type(tm).__name__)
+
+
 def build_model(cfg: dict):
     """cfg: shape n t(list or float) model sites(list of str per taxon) K tip_states batch(list of scale
     factors or None) seed_shape.  Returns the real TreeLikelihoodModel and handles to its parameters."""
@@ -211,7 +229,11 @@ def observe(like):
         for f in FUNCS:
             setattr(TL, f, wrap(f))
         try:
-            v = like._call()
+            if hasattr(like, "_call"):
+                v = like._call()
+            else:  # the framework hook was renamed: force a recomputation through the public call
+                like.lp_needs_update = True
+                v = like()
             rec["value"] = v.detach().clone()
         except Exception as e:  # the implementation raised: an oracle failure, not a harness crash
             rec["error"] = "%s: %s" % (type(e).__name__, str(e)[:200])
@@ -620,7 +642,7 @@ class Hist:
             like2 = copy.deepcopy(self.b.like)
             self.b = Built()
             self.b.like = like2
-            self.b.blp = like2.tree_model._branch_lengths
+            self.b.blp = branch_param(like2)
         self.ops.append({"op": name})
 
     def set_sample_scales(self, factors):
@@ -1147,7 +1169,11 @@ def clock_route_check(ck: Check, drv, fails, refs, rng, n: int, t: float, opts: 
     h = Hist.__new__(Hist)
     h.cfg, h.ops, h.scale = cfg, [{"op": "built-from-json-with-clock"}], 1.0
     h.b = Built()
-    h.b.like, h.b.blp = like, like.tree_model._internal_heights
+    try:
+        h.b.like, h.b.blp = like, branch_param(like)
+    except HarnessIntrospection as e:
+        ck.mismatch("harness introspection of a private name failed (not a finding)", {"error": str(e)})
+        return
     r1 = eval_and_check(ck, drv, h, "route-clock-fresh", refs, fails, group="route")
     eval_and_check(ck, drv, h, "route-clock-repeat", refs, fails, group="route")
     if like.clock_model is None or like.use_tip_states != bool(opts.get("use_tip_states")):
@@ -1258,7 +1284,11 @@ def routes_check(ck: Check, drv, budget_s: float):
                     continue
                 h = Hist(cfg)
                 h.b.like = like
-                h.b.blp = like.tree_model._branch_lengths
+                try:
+                    h.b.blp = branch_param(like)
+                except HarnessIntrospection as e:
+                    ck.mismatch("harness introspection of a private name failed (not a finding)", {"error": str(e)})
+                    continue
                 h.ops.append({"op": "built-from-json", "opts": opts})
                 eval_and_check(ck, drv, h, "route-json-band-fresh", refs, fails, group="route")
                 eval_and_check(ck, drv, h, "route-json-band-repeat", refs, fails, group="route")
@@ -1435,6 +1465,9 @@ def invariants_check(ck: Check, drv, budget_s: float):
             flag_before = bool(h.b.like.rescale)
             try:
                 h.apply_op(op)
+            except HarnessIntrospection as e:
+                ck.mismatch("harness introspection of a private name failed (not a finding)", {"op": op, "error": str(e)})
+                continue
             except Exception as e:
                 h.ops.append({"op": op})
                 record_fail(fails, "device-move-raised" if "cpu" in op else "copy-raised", cfg, op, history=list(h.ops),
@@ -1685,7 +1718,7 @@ def replay(path: str) -> int:
             specs, _ = json_like_spec(cfg, op["opts"], False, True, _r.Random(0))
             like = build_from_json(specs)
             h.b.like = like
-            h.b.blp = like.tree_model._branch_lengths
+            h.b.blp = branch_param(like)
         elif op["op"] == "set-branch-lengths":
             torch = tt()
             h.b.blp.tensor = torch.full_like(h.b.blp.tensor, op["value"])
